@@ -478,6 +478,8 @@ def cli(argv=None, mode='output'):
     argv = [str(x) for x in argv]
     with msg_prefix('c '):
         args, t_args = parse_command_line(argv, parser, t_parser)
+        if mode == 'output' and args.output is None:
+            raise CLIError("ERROR: the standard output is closed: use -o <file>")
 
     #  Determine output format
     output_format = guess_output_format(args.output, args.output_format)
